@@ -181,6 +181,9 @@ def run(tier):
         R.under_contract(DN.check_t_eval_arr(reg, src, PID))
         for fi in check_dense_output_method(reg, src):
             R.under_contract(fi)
+        # the piece built from (t, y, f) at both ends keeps each end's data with that end (the constructor of the Hermite piece)
+        from . import C17
+        R.under_contract(C17.check_hermite_init(reg, src, PID))
         for fi in check_call_slopes(reg, src):
             R.under_contract(fi)
         d = e2common.load_tables(R)
